@@ -3,6 +3,7 @@
 package zzvh
 
 import (
+	age "github.com/craterdog/go-collection-framework/v4/agent"
 	col "github.com/craterdog/go-collection-framework/v4/collection"
 	vf "github.com/craterdog/go-collection-framework/v4/zzvf"
 )
@@ -120,6 +121,75 @@ func VF_C15_DefaultInt(sizes, opmax int) {
 		ok = vf.And(ok, want(member(xs, g), member(ys, g)))
 	}
 	vf.Assert("natural-exact-members", ok)
+	vf.BudgetReset()
+	vf.Reach("end")
+}
+
+// descCollator: the reverse of the natural order (a custom collator an operand may carry).
+type descCollator struct{}
+
+func (descCollator) GetClass() age.CollatorClassLike[int] { return nil }
+func (descCollator) CompareValues(a, b int) bool          { return a == b }
+func (descCollator) GetDepth() int                        { return 0 }
+func (descCollator) GetMaximum() int                      { return 16 }
+func (descCollator) RankValues(a, b int) age.Rank {
+	if a > b {
+		return age.LesserRank
+	}
+	if a < b {
+		return age.GreaterRank
+	}
+	return age.EqualRank
+}
+
+// VF_C15_MixedCollators: operands that carry different collators (first descending, second natural, or the
+// other way round).  Both orders distinguish exactly the same values, so the members are the set-theoretic
+// ones; the result is an ordered set in the order of the first operand, whose collator every one of the
+// four operations hands to the result.
+var c15mixed = [][2]int{{0, 0}, {1, 0}, {0, 1}, {1, 1}, {2, 1}, {1, 2}, {2, 2}, {3, 2}, {2, 3}, {3, 3}}
+
+func VF_C15_MixedCollators(sizes, opmax int) {
+	na, nb := c15mixed[sizes][0], c15mixed[sizes][1]
+	op, which := opmax%4, opmax/4
+	xs := vf.Ints("a", na)
+	ys := vf.Ints("b", nb)
+	for _, v := range cat(xs, ys) {
+		vf.Assume(vf.And(v >= -8, v <= 8)) // stated bound: the natural order on the full range is VF_C15_DefaultInt's subject
+	}
+	vf.Budget(40 * listBudget)
+	var A, B col.SetLike[int]
+	if which == 0 {
+		A = col.Set[int](nil).MakeWithCollator(descCollator{})
+		B = col.Set[int](nil).Make()
+	} else {
+		A = col.Set[int](nil).Make()
+		B = col.Set[int](nil).MakeWithCollator(descCollator{})
+	}
+	for _, x := range xs {
+		A.AddValue(x)
+	}
+	for _, y := range ys {
+		B.AddValue(y)
+	}
+	r := setOp(op, A, B).AsArray()
+	ordered := true
+	for i := 0; i+1 < len(r); i++ {
+		if which == 0 {
+			ordered = vf.And(ordered, r[i] > r[i+1])
+		} else {
+			ordered = vf.And(ordered, r[i] < r[i+1])
+		}
+	}
+	vf.Assert("result-ordered-like-first-operand", ordered)
+	want := wantOp(op)
+	ok := true
+	for _, c := range cat(xs, ys) {
+		ok = vf.And(ok, member(r, c) == want(member(xs, c), member(ys, c)))
+	}
+	for _, g := range r {
+		ok = vf.And(ok, want(member(xs, g), member(ys, g)))
+	}
+	vf.Assert("mixed-exact-members", ok)
 	vf.BudgetReset()
 	vf.Reach("end")
 }
